@@ -18,9 +18,9 @@ from .c01 import replay_history
 LEVEL = "model_checking"
 
 CFG_NEST = {"values": (3,), "templates": ("mul2", "add", "inc"), "iops": (("add", ("lit", 1)),), "unreg": True}
-CFG_MIX = {"values": (3,), "index_values": (1,), "templates": ("mul2", "add", "dbl", "pick", "total", "dyn", "abs", "neg"),
+CFG_MIX = {"values": (3,), "index_values": (1,), "templates": ("mul2", "add", "dbl", "pick", "total", "dyn", "abs", "neg", "unit", "kw2"),
            "unreg": True, "setc": True}
-CFG_MIX_Q = {"values": (3,), "index_values": (1,), "templates": ("mul2", "pick", "total", "dyn"), "unreg": True}
+CFG_MIX_Q = {"values": (3,), "index_values": (1,), "templates": ("mul2", "pick", "total", "dyn", "unit"), "unreg": True}
 CFG_REDUCED = {"values": (3,), "templates": ("mul2", "inc"), "unreg": True}
 # gen_fun as an operation of the history (it may leave state behind, e.g. a source cache), small alphabet, deeper
 # right-nested chains with floats for which re-association changes the result
@@ -65,6 +65,17 @@ class System(ManagerSystem):
                 try:
                     src = wf.m.mk_fun("fn", **kwargs)
                     fn = wf.m.gen_fun("fn", **kwargs)
+                    if k == 1:
+                        # the name of the generated function is the user's choice: a name that is also a container label
+                        for label in ("s", "f"):
+                            w3 = self.replay(full)
+                            g = w3.m.gen_fun(label, **{f"a{i}": w3.ref(L) for i, L in enumerate(subset)})
+                            g(5)
+                            w4 = self.replay(full)
+                            w4.m.gen_fun("fn", **{f"a{i}": w4.ref(L) for i, L in enumerate(subset)})(5)
+                            if not T.same(w3.contents(), w4.contents()):
+                                issues.append(self.issue("violation", hist, op, f"gen_fun({label!r}, ...) behaves differently from gen_fun('fn', ...)",
+                                                         {"args": [T.path_str(L) for L in subset]}))
                 except Exception as e:  # noqa
                     issues.append(self.issue("violation", hist, op, f"gen_fun raised {type(e).__name__}: {e}",
                                              {"args": [T.path_str(L) for L in subset]}))
